@@ -63,7 +63,7 @@ def check(ctx):
             msg = judge_entry(e, n)
             if msg:
                 ctx.violation({"kind": "entry", "file": os.path.basename(path), "line": idx}, "entry: %s line %d: %s" % (os.path.basename(path), idx, msg))
-    units = conform.standard_units(ctx.tier, sign_mode="light", thin=(3 if ctx.tier == "quick" else 1))
+    units = conform.standard_units(ctx.tier, sign_mode="light", thin=(3 if ctx.tier == "quick" else 2))
     obs = conform.run_units(ctx, judge, units)
     ctx.phase("class-constancy of the observed (cost, depth) per (configuration, component)")
     seen = {}
